@@ -95,8 +95,13 @@ def run(ctx):
             impl_desc.append(d)
         if 'ok' in mo:
             ren, model_desc = {}, []
+            all_names = {}
             for ch in mo['ok']:
-                by_name = {t['full']: t['obj'] for t in ch}
+                for t in ch:
+                    all_names.setdefault(t['full'], t['obj'])
+            for ch in mo['ok']:
+                # (an input of a shared object may be named as in the chain that created the object)
+                by_name = {**all_names, **{t['full']: t['obj'] for t in ch}}
                 d = []
                 for t in ch:
                     o = ren.setdefault(t['obj'], len(ren))
@@ -147,7 +152,8 @@ def run(ctx):
                 v = mod.unwrap(kind, t0.value)
                 vs = mod.unwrap(kind, standalone[0].tasks[nme].value)
                 if v != vs:
-                    ctx.fail('value through the MultiChain differs from the standalone chain\'s value', full_case, {'task': nme})
+                    ctx.fail('value through the MultiChain differs from the standalone chain\'s value', full_case, {'task': nme},
+                             known='K6' if k6_class(standalone) else None)
                 for ch in chains[1:]:
                     for t in ch.tasks.values():
                         if t is t0:
